@@ -23,7 +23,7 @@ def EXHAUSTIVE(tier):
 
 
 def plan(tier):
-    return {"n_random": 160 if tier == "quick" else 0, "item_draws": 3, "time_s": 700 if tier == "quick" else 1750, "shrink_evals": 0}
+    return {"n_random": 320 if tier == "quick" else 0, "item_draws": 3, "time_s": 700 if tier == "quick" else 1750, "shrink_evals": 0}
 
 
 def items(tier):
